@@ -54,7 +54,7 @@ def fd_job(job):
         out["shapeOk"] = bool(tuple(J.shape) == tuple(fshape) + tuple(xshape))
         if out["shapeOk"]:
             Jf = np.reshape(J, (m, n))          # C-order flattening of [i..., j...] is (i, j) for row-major shapes
-            eps = num.eps_of(dt)
+            eps = max(num.eps_of(dt), num.eps_of("float64"))      # the finite-difference weights are computed in double precision
             units = []
             for i in range(m):
                 for j in range(n):
@@ -63,7 +63,7 @@ def fd_job(job):
                     if not adaptive:
                         allow = scale * Fraction(1, 10 ** 4)       # fixed-depth extrapolation makes no accuracy promise beyond its order
                     else:
-                        allow = scale * (eps * 256 if case["lin"] else Fraction(1, 10 ** 8) if dtn != "float32" else Fraction(1, 10 ** 3))
+                        allow = scale * (eps * 256 if case["lin"] else Fraction(1, 10 ** 8) if dtn != "float32" else Fraction(1, 10 ** 2))
                     units.append(int(min(num.CAP, math.ceil(abs(num.frac(Jf[i, j]) - want) / allow))))
             out["units"] = units
     except Exception as e:      # noqa
